@@ -1,0 +1,212 @@
+//go:build verif
+
+// Contracts for the fc compiler (package main), read by /verif's verifier (fovc).  Comment-only:
+// with the build tag off this file does not exist for the compiler, with it on it adds no code.
+//
+// Hand-written Go (wrapper.go) is verified with byte-array strings (a string is an array of bytes
+// and a length); every loop carries an invariant and, where the function is marked `terminates`,
+// a variant.
+
+package main
+
+//@ mode slices=value strings=smt
+
+// ---------------------------------------------------------------------------------------------
+// wrapper.go: scanners.  C16: they terminate and make progress on every byte string, never index
+// outside the buffer except where a recoverable panic is the documented diagnostic path.
+// ---------------------------------------------------------------------------------------------
+
+//@ func isCharAt
+//@   inline
+//@ func isAlpha
+//@   inline
+//@ func isNumber
+//@   inline
+//@ func isAlnum
+//@   inline
+//@ func newToken
+//@   inline
+//@ func newOneCharToken
+//@   inline
+//@ func newStLikeToken
+//@   inline
+//@ func Token.end
+//@   inline
+
+//@ func isStringAt
+//@   props C16 C06 C11
+//@   mode strings=bytes
+//@   terminates
+//@   requires at-nonneg: at >= 0
+//@   requires ascii: ascii(s)
+//@   panics never
+//@   returns matches_at(buf, at, s)
+//@   loop 0:
+//@     invariant fits: at + len(s) <= len(buf)
+//@     invariant prefix: forall k int :: 0 <= k && k < i ==> s[k] == buf[at + k]
+
+//@ func searchForward
+//@   props C16 C06
+//@   mode strings=bytes
+//@   terminates
+//@   requires start-nonneg: start >= 0
+//@   requires ascii: ascii(s)
+//@   panics never
+//@   ensures found: result != 0 - 1 ==> start <= result && matches_at(buf, result, s)
+//@   ensures first: forall p int :: start <= p && (result == 0 - 1 || p < result) && p < len(buf) ==> !matches_at(buf, p, s)
+//@   ensures notfound: result == 0 - 1 || result >= start
+//@   loop 0:
+//@     invariant bounds: start <= pos
+//@     invariant none: forall p int :: start <= p && p < pos && p < len(buf) ==> !matches_at(buf, p, s)
+//@     decreases len(buf) - pos
+
+//@ func scanSpaceToken
+//@   props C16 C06
+//@   mode strings=bytes
+//@   terminates
+//@   ghost i0 int
+//@   requires pos-range: 0 <= pos && pos <= len(buf)
+//@   panics may
+//@   ensures begin: result.begin == pos
+//@   ensures fits: 0 <= result.len && pos + result.len <= len(buf)
+//@   ensures kind: result.ttype == New_TokenType_SPACE
+//@   ensures progress: pos < len(buf) && (buf[pos] == ' ' || buf[pos] == '\t' || matches_at(buf, pos, "/*") || matches_at(buf, pos, "//")) ==> result.len >= 1
+//@   loop 0:
+//@     invariant bounds: 0 <= i && pos + i <= len(buf)
+//@     invariant progress: pos < len(buf) && (buf[pos] == ' ' || buf[pos] == '\t' || matches_at(buf, pos, "/*") || matches_at(buf, pos, "//")) && i == 0 ==> (buf[pos + i] == ' ' || buf[pos + i] == '\t' || matches_at(buf, pos + i, "/*") || matches_at(buf, pos + i, "//"))
+//@     decreases len(buf) - (pos + i)
+//@   at body loop 0: i0 = i
+//@   loop 1:
+//@     invariant bounds: i0 <= i && pos + i <= len(buf)
+//@     decreases len(buf) - (pos + i)
+//@   loop 2:
+//@     invariant bounds: i0 <= i && pos + i <= len(buf)
+//@     decreases len(buf) - (pos + i)
+//@   loop 3:
+//@     invariant bounds: i0 <= i && pos + i <= len(buf)
+//@     decreases len(buf) - (pos + i)
+
+//@ func scanIdentifierToken
+//@   props C16 C06
+//@   mode strings=bytes
+//@   terminates
+//@   requires pos-range: 0 <= pos && pos < len(buf)
+//@   panics never
+//@   ensures begin: result.begin == pos
+//@   ensures fits: 1 <= result.len && pos + result.len <= len(buf)
+//@   loop 0:
+//@     invariant bounds: 1 <= i && pos + i <= len(buf)
+//@     invariant cur: cur.begin == pos
+//@     decreases len(buf) - (pos + i)
+
+//@ func scanIntImmToken
+//@   props C16 C06
+//@   mode strings=bytes
+//@   terminates
+//@   requires pos-range: 0 <= pos && pos < len(buf)
+//@   panics may
+//@   ensures begin: result.begin == pos
+//@   ensures fits: 0 <= result.len && pos + result.len < len(buf)
+//@   ensures progress: '0' <= buf[pos] && buf[pos] <= '9' ==> result.len >= 1
+//@   loop 0:
+//@     invariant bounds: 0 <= i && pos + i < len(buf)
+//@     invariant cur: c == buf[pos + i]
+//@     decreases len(buf) - (pos + i)
+
+//@ func scanStringLiteralToken
+//@   props C16 C06 C11
+//@   mode strings=bytes
+//@   terminates
+//@   requires pos-range: 0 <= pos && pos < len(buf)
+//@   panics may
+//@   ensures begin: result.begin == pos
+//@   ensures fits: 2 <= result.len && pos + result.len <= len(buf)
+//@   ensures closed: buf[pos + result.len - 1] == '"'
+//@   ensures C11 verbatim-len: len(result.stringVal) == result.len - 2
+//@   ensures C11 verbatim: forall k int :: 0 <= k && k < result.len - 2 ==> result.stringVal[k] == buf[pos + 1 + k]
+//@   loop 0:
+//@     invariant bounds: 1 <= i && pos + i <= len(buf)
+//@     invariant cur: cur.begin == pos
+//@     invariant copied-len: len(bb) == i - 1
+//@     invariant copied: forall k int :: 0 <= k && k < i - 1 ==> bb[k] == buf[pos + 1 + k]
+//@     decreases len(buf) - (pos + i)
+
+//@ func scanRawStringLiteralToken
+//@   props C16 C06 C11
+//@   mode strings=bytes
+//@   terminates
+//@   requires pos-range: 0 <= pos && pos < len(buf)
+//@   panics may
+//@   ensures begin: result.begin == pos
+//@   ensures fits: 2 <= result.len && pos + result.len <= len(buf)
+//@   ensures closed: buf[pos + result.len - 1] == '`'
+//@   ensures first-backtick: forall k int :: 1 <= k && k < result.len - 1 ==> buf[pos + k] != '`'
+//@   loop 0:
+//@     invariant bounds: 1 <= i && pos + i <= len(buf)
+//@     invariant cur: cur.begin == pos
+//@     invariant no-backtick: forall k int :: 1 <= k && k < i ==> buf[pos + k] != '`'
+//@     decreases len(buf) - (pos + i)
+
+//@ func scanTokenAt
+//@   props C16 C06
+//@   mode strings=bytes
+//@   terminates
+//@   requires pos-range: 0 <= pos && pos <= len(buf)
+//@   panics may
+//@   ensures begin: result.begin == pos || (pos < len(buf) && buf[pos] == '$' && result.begin == pos + 1)
+//@   ensures fits: 0 <= result.len && result.begin + result.len <= len(buf)
+//@   ensures progress: result.ttype != New_TokenType_EOF ==> result.len >= 1
+//@   ensures space: result.ttype == New_TokenType_SPACE ==> result.begin == pos
+
+//@ func isNeighborLT
+//@   props C16
+//@   mode strings=bytes
+//@   requires end-nonneg: prev.begin + prev.len >= 0
+//@   panics never
+//@   returns prev.begin + prev.len < len(buf) && buf[prev.begin + prev.len] == '<'
+
+//@ func nextToken
+//@   props C16 C06
+//@   mode strings=bytes
+//@   terminates
+//@   requires end-nonneg: prev.begin + prev.len >= 0
+//@   panics may
+//@   ensures not-space: result.ttype != New_TokenType_SPACE
+//@   ensures after-prev: result.begin >= prev.begin + prev.len || result.begin == len(buf)
+//@   ensures fits: 0 <= result.len && result.begin + result.len <= len(buf)
+//@   ensures progress: result.ttype != New_TokenType_EOF ==> result.len >= 1
+//@   loop 0:
+//@     invariant fits: 0 <= tk.len && tk.begin + tk.len <= len(buf) && tk.begin >= prev.begin + prev.len
+//@     invariant progress: tk.ttype != New_TokenType_EOF ==> tk.len >= 1
+//@     decreases len(buf) - (tk.begin + tk.len) + ite(tk.ttype == New_TokenType_SPACE, 1, 0)
+
+//@ func reinterpretEscape
+//@   props C16
+//@   mode strings=bytes
+//@   terminates
+//@   panics may
+//@   loop 0:
+//@     invariant bounds: 0 <= i && i <= eof && eof == len(buf)
+//@     decreases eof - i
+
+//@ func PosToFilePosInfo
+//@   props C16
+//@   mode strings=bytes
+//@   terminates
+//@   panics never
+//@   ensures line: result.LineNum >= 1 && result.ColNum >= 1
+//@   loop 0:
+//@     invariant bounds: 0 <= cur && cur <= len(buf) && line >= 1 && col >= 1
+//@     decreases len(buf) - cur
+
+//@ func ParseSInterP
+//@   props C16 C11
+//@   mode strings=bytes slices=value
+//@   terminates
+//@   panics may
+//@   loop 0:
+//@     invariant bounds: 0 <= i && end == len(buf)
+//@     decreases end - i
+//@   loop 1:
+//@     invariant bounds: 0 <= i && i <= end && end == len(buf)
+//@     decreases end - i
